@@ -94,7 +94,7 @@ def make_trace(tid, rng, nops=30, **opt):
     cs = rng.choice([1 << 20, 1 << 20, 65536, 4096, 63 * 512, 1000 * 512]) if ver == 2 else rng.choice([65536, 4096, 32768, 63 * 512, 24 * 512])
     n = rng.randrange(2, 30 if cs <= 65536 else 10)
     if opt.get("many"):  # a BAT of several hundred entries
-        cs, n = rng.choice([4096, 63 * 512]), rng.randrange(200, 500)
+        cs, n = rng.choice([4096, 63 * 512, 1024, 2048]), rng.randrange(200, 700)   # small clusters: the BAT itself spans several clusters
     parent = rng.random() < 0.3
     tail = rng.choice([0, 0, 512, cs // 1024 * 512, cs - 512])
     size_b = n * cs - tail
